@@ -116,7 +116,7 @@ def check(run):
         if o == "<crash>":
             continue
         if "DIFFERS" in o:
-            oracle_fail.append((cfg, l, "variant-vs-scalar operators agree with variant-vs-variant, and the result does not depend on the integer type (signed or unsigned) that stores a value", o))
+            oracle_fail.append((cfg, l, "variant-vs-scalar operators agree with variant-vs-variant, and the result depends neither on the integer type (signed or unsigned) that stores a value nor on two strings sharing one buffer", o))
             continue
         eq, ne, lt, le, gt, ge, req, rne, rlt, rle, rgt, rge = [c == "1" for c in o[:12]]
         laws = []
